@@ -257,7 +257,7 @@ def run_families(run, names, cap):
     return scenarios, stats
 
 
-def check(run, pid, families, extra_design_props=None, level_note=""):
+def check(run, pid, families, extra=None):
     q = run.quick()
     run.build()
     live = scen.design_check(run, LIVE, DESIGN_INV, properties=LIVE_PROPS, workers=4)
@@ -266,10 +266,14 @@ def check(run, pid, families, extra_design_props=None, level_note=""):
     rows, trace = scen.replay(run, scenarios, par=8)
     res = scen.validate(run, trace)
     viols = attribute(pid, res, rows, scenarios)
+    nextra = 0
+    if extra:
+        ev, nextra = extra(run)
+        viols += ev
     nenv = sum(1 for s in scenarios for e in s["behaviour"] if e["a"] in scen.ENV)
     sample = scenarios[len(scenarios) // 2]
     cov = {"states": mc.distinct + (0 if q else live.distinct), "transitions": mc.generated + (0 if q else live.generated),
-           "traces_validated_against_impl": len(scenarios),
+           "traces_validated_against_impl": len(scenarios) + nextra,
            "samples": [{"cfg": sample["cfg"], "behaviour": [[e["a"], e["c"], e["i"], e["k"], e["hold"]] for e in sample["behaviour"]],
                         "trace": [[r["ev"], r["c"], r["i"], r["val"]] for r in rows if r.get("scen") == sample["id"]][:40]}],
            "evaluations": nenv, "distinct_nontrivial": len({json.dumps([e for e in s["behaviour"] if e["a"] in scen.ENV]) for s in scenarios if any(e["hold"] or e["a"] in ("stop", "close", "panic") for e in s["behaviour"])}),
